@@ -1,5 +1,6 @@
 import DadiVerif.Lemmas.PopOpsScramble
 import DadiVerif.Lemmas.PopOpsFold
+import DadiVerif.Lemmas.PopOpsProj
 /-!
 # C10 — population bookkeeping on spectra equals explicit index arithmetic, keeps labels
 
@@ -396,6 +397,39 @@ example : [1, 2] ∈ boxIdx (dropAxes [1] [2, 4, 3]) := by decide
 /-- and `unfold (fold x)` is that symmetrisation, on the box -/
 theorem C10_unfold_fold (S : FS) (i : Idx) (hi : i ∈ S.box) :
     (unfoldCore (foldCore S)).dat i = symDat S.shape S.dat i := unfold_fold_dat S i hi
+
+/-! ## projection -/
+
+/-- Summing a population and projecting another one commute, for ANY per-axis resampling kernel `w` (so in particular
+    for the hypergeometric weights of `_project_one_axis`): sum over axis k' of the spectrum resampled on axis k = the
+    marginal spectrum resampled on that axis (which sits at position `shiftAxis k' k` once k' is gone). -/
+theorem C10_commute_project_kernel (w : Nat → Nat → ℚ) (sh : List Nat) (k k' m1 : Nat) (hne : k ≠ k') (hk : k < sh.length)
+    (hk' : k' < sh.length) (x : Idx → ℚ) (j : Idx) (hj : j ∈ boxIdx ((sh.set k m1).eraseIdx k')) :
+    pushL (boxIdx (sh.set k m1)) (fun i => i.eraseIdx k') (projDat w k (sh.getD k 0) x) j
+      = projDat w (shiftAxis k' k) (sh.getD k 0) (pushL (boxIdx sh) (fun i => i.eraseIdx k') x) j :=
+  proj_sum_comm w sh k k' m1 hne hk hk' x j hj
+
+/-- …instantiated at the model of `_project_one_axis` and of the masked one-axis sum, on a spectrum without masked entries:
+    `sum_{k'} (project_k S) = project_{k after deletion} (sum_{k'} S)`. -/
+theorem C10_commute_project_marginalize (k k' m : Nat) (S : FS) (hne : k ≠ k') (hk : k < S.ndim) (hk' : k' < S.ndim)
+    (hm : ∀ i, S.msk i = false) (j : Idx) (hj : j ∈ boxIdx ((S.shape.set k (m + 1)).eraseIdx k')) :
+    (sumAxis k' (projectAxis k m S)).dat j = (projectAxis (shiftAxis k' k) m (sumAxis k' S)).dat j := by
+  have hv1 : (projectAxis k m S).val = (projectAxis k m S).dat := by
+    funext i; simp [FS.val, projectAxis, hm]
+  have hv2 : S.val = S.dat := by funext i; simp [FS.val, hm]
+  have hn : (S.shape.eraseIdx k').getD (shiftAxis k' k) 0 = S.shape.getD k 0 := getD_eraseIdx_ne _ k' k 0 hne
+  show pushL (boxIdx (S.shape.set k (m + 1))) (fun i => i.eraseIdx k') (projectAxis k m S).val j = _
+  rw [hv1]
+  have e1 : (projectAxis k m S).dat = projDat (projW (S.shape.getD k 0 - 1) m) k (S.shape.getD k 0) S.dat := rfl
+  have e2 : (projectAxis (shiftAxis k' k) m (sumAxis k' S)).dat
+      = projDat (projW (S.shape.getD k 0 - 1) m) (shiftAxis k' k) (S.shape.getD k 0) (pushL S.box (fun i => i.eraseIdx k') S.dat) := by
+    show projDat (projW ((S.shape.eraseIdx k').getD (shiftAxis k' k) 0 - 1) m) (shiftAxis k' k)
+        ((S.shape.eraseIdx k').getD (shiftAxis k' k) 0) (pushL S.box (fun i => i.eraseIdx k') S.val) = _
+    rw [hn, hv2]
+  rw [e1, e2]
+  exact proj_sum_comm _ S.shape k k' (m + 1) hne hk hk' S.dat j hj
+
+example : (0 : Nat) ≠ 2 ∧ [1, 2] ∈ boxIdx (([4, 3, 5].set 0 (2 + 1)).eraseIdx 2) ∧ shiftAxis 2 0 = 0 ∧ shiftAxis 0 2 = 1 := by decide
 
 /-! ## the two obligations that the generated wiring must meet (they fail while the defect is in the source) -/
 
